@@ -29,7 +29,7 @@ Lemma validate_go_tree ns : forall t p, denotes ns p t -> ordered t ->
     (forall j, has_id t j -> j <> nid t -> nth_error v j = Some false) ->
     exists v', validate_go (size t + fuel) ns v (nid t :: stk) = validate_go fuel ns v' stk /\ marks v v' t.
 Proof.
-  induction t as [i d k|i d k a IH|i d k a IH|i d k l IHl r IHr]; intros p D O fuel v stk Hroot Hfalse;
+  induction t as [i d k|i d k a IH|i d k a IH|i d k l IHl r IHr|i k a IH]; intros p D O fuel v stk Hroot Hfalse;
     simpl in D; destruct D as (n & Hn & A); cbn [nid size] in *.
   - destruct A as (A1 & A2 & A3 & A4 & A5 & A6 & A7).
     exists v. split.
@@ -113,6 +113,25 @@ Proof.
       * intros j Hj. simpl in Hj. rewrite N4 by tauto. rewrite M4 by tauto.
         rewrite (upd_other _ _ _ _ j U2); [|intros ->; apply Hj; right; right; apply has_id_root].
         apply (upd_other _ _ _ _ j U1). intros ->. apply Hj. right. left. apply has_id_root.
+  - (* bracket: one child, to the right *)
+    destruct A as (A1 & A2 & A3 & A4 & A5 & A6 & A7). destruct O as [O1 O2].
+    destruct (denotes_root _ _ _ A7) as (cn & Hcn & Hcp).
+    pose proof (ordered_lo_hi a O2) as Ba.
+    assert (Hva : nth_error v (nid a) = Some false).
+    { apply Hfalse; [simpl; right; apply has_id_root|lia]. }
+    destruct (visit_child_some ns v stk i (nid a) cn Hcn Hcp Hva) as (v1 & E1 & U1).
+    destruct (IH (Some i) A7 O2 fuel v1 stk) as (v2 & E2 & M2 & M3 & M4).
+    { eapply upd_same in U1; [exact U1|exact Hva]. }
+    { intros j Hj Hne. rewrite (upd_other _ _ _ _ j U1 Hne). apply Hfalse; [simpl; auto|].
+      pose proof (ordered_range a j O2 Hj). lia. }
+    exists v2. split.
+    + cbn [plus validate_go]. rewrite Hn, A4, A5. rewrite visit_child_none. cbn [bind]. rewrite E1. cbn [bind]. exact E2.
+    + split; [rewrite M2; eapply upd_len; eauto|]. split.
+      * intros j [->|Hj]; [|apply M3; exact Hj].
+        rewrite M4; [|intros Hc; pose proof (ordered_range a i O2 Hc); lia].
+        rewrite (upd_other _ _ _ _ i U1) by lia. exact Hroot.
+      * intros j Hj. simpl in Hj. rewrite M4 by tauto.
+        apply (upd_other _ _ _ _ j U1). intros ->. apply Hj. right. apply has_id_root.
 Qed.
 
 Lemma unvisited_all_true : forall ns v,
@@ -141,10 +160,7 @@ Proof.
     [rewrite map_length; exact Hr|]. rewrite E0.
   pose proof (ordered_size t O) as Hs. pose proof (ordered_lo_hi t O) as Hb.
   pose proof (denotes_lt ns None t (hi t) D) as Hh.
-  assert (Hhi : hi t < length ns).
-  { apply Hh. clear -O. induction t; simpl in *; auto.
-    - right. apply IHt. tauto.
-    - right. right. apply IHt2. tauto. }
+  assert (Hhi : hi t < length ns) by (apply Hh; apply has_id_hi).
   destruct (validate_go_tree ns t None D O (S (S (length ns)) - size t) v0 []) as (v' & E & M1 & M2 & M3).
   - eapply upd_same in E0; [exact E0|]. apply nth_error_map_false. exact Hr.
   - intros j Hj Hne. rewrite (upd_other _ _ _ _ j E0 Hne). apply nth_error_map_false.
